@@ -18,6 +18,7 @@ import (
 //	float   float64(Ints[i])/2 (never -0)   pair    pair{Ints[i], Strs[i]}
 //	ptr     Ints[i] mod 4: 0 = nil, k = address of cell k-1 of a fresh per-case pool
 //	iface   any: Ints[i] == 0 nil; > 0 any(int64); < 0 any("s"+Strs[i])  (never a non-nil interface holding a zero value)
+//	IsNil   Ints[0] is an index (modulo the table size) into isNilTable of the interface type
 //	stamp   stamp{Sec: Ints[i], Loc: Ints[i+1]} - a comparable type whose IsZero() is true whenever Sec == 0
 type Util struct {
 	Fn   string   `json:"fn"`
@@ -244,7 +245,7 @@ func derefCheck[P ~*V, V comparable](name string, isNil bool, v V) string {
 
 type isNilEnt struct {
 	typ, desc, class string
-	call            func() (got, want bool)
+	call             func() (got, want bool)
 }
 
 // isNilAt evaluates both sides at the interface type T: the helper and the language's own comparison with nil.
@@ -726,9 +727,12 @@ var specUtil = pbt.Register(&pbt.Spec[Util]{
 	Property: "C20", Name: "C20.util",
 	Rule: "rapid: one call of Coal (0..6 args; int64, string, float64, struct, pointer, any), Zero, ZeroOf, IsZero (plain types, a comparable struct whose IsZero() is true " +
 		"for a non-zero value, interface-typed T holding it), Tern, TernCast (valid casts when cond; arbitrary/nil value when !cond), Ref (two calls: fresh, independent copies), " +
-		"DerefZero (nil / non-nil, named pointer type), IsNil (interface-typed nil and non-nil values; no typed-nil pointers inside interfaces). Values come from a small domain rich in zeros. " +
+		"DerefZero (nil / non-nil, named pointer type), IsNil at T = any, error, fmt.Stringer, interface{IsZero() bool}: the nil interface (also a nil error converted to any), ordinary values, and non-nil interfaces " +
+		"holding a nil pointer (plain, named, to a zero-size type, to a pointer, of a type with methods), a nil unsafe.Pointer, a nil slice / map / func / channel (incl. named ones with methods) - expected value = the result of " +
+		"comparing the interface value with nil, i.e. true for the nil interface only. Values come from a small domain rich in zeros. One case in 8 is also run as 4 parallel independent copies. " +
 		"non-trivial = Coal with >= 2 args where a zero precedes the first non-zero or two distinct non-zeros occur; IsZero on a zero value or a type with the method; " +
 		"Tern/TernCast with different alternatives; ZeroOf of a non-zero argument; every Zero/Ref/DerefZero/IsNil case",
 	Gen: genUtil,
 	Run: RunUtil, Quick: 50000, Thorough: 100000,
+	Replicas: 4, ReplicaEvery: 8,
 })
